@@ -21,7 +21,6 @@ suite    (spec keys, family, grid, {R: E}) — the bounded space the spec is enu
 import importlib
 import itertools
 import logging
-import math
 import os
 import time
 from functools import lru_cache
@@ -354,6 +353,7 @@ class Env:
         self.incs = tuple(incs) if incs is not None else None
         self.full = make_frame(fam, table, grid, incs)
         self.example = self.full.iloc[:1]
+        self.example_last = self.full.iloc[-1:]     # for resumed pipelines: not older than any row held in a state
         self.R = len(table)
         self.cache = {}
 
@@ -393,11 +393,12 @@ class Env:
 
 
 class Fail:
-    def __init__(self, clause, step, observed, pos=None):
+    def __init__(self, clause, step, observed, pos=None, got=None):
         self.clause = clause
         self.step = step          # batch index at which the clause failed (-1: construction)
         self.observed = observed
         self.pos = pos            # row position (concat mode)
+        self.got = got            # the emitted object (stays in the worker; used by bug models)
 
 
 class CaseResult:
@@ -464,7 +465,7 @@ def run_case(spec, env, split, want_trace=False):
                 break
             d = diff(got, want, zero_ok=spec.zero_ok, squeeze=(mode == "last"))
             if d is not None:
-                res.fail = Fail(d[0], k, d[1])
+                res.fail = Fail(d[0], k, d[1], got=got)
                 break
         lo = hi
     if mode == "concat" and res.fail is None:
@@ -505,7 +506,7 @@ def _concat_check(spec, env, split, L):
             break
     else:
         step = len(split) - 1
-    return Fail(clause, step, obs, pos=pos)
+    return Fail(clause, step, obs, pos=pos, got=got)
 
 
 # ----------------------------------------------------------------------------------------
@@ -517,6 +518,8 @@ class Info:
 
     def __init__(self, spec, env, split, fail):
         self.spec = spec
+        self.env = env
+        self.fail = fail
         self.rows = rows_of(env.fam, env.table)
         self.times = times_of(env.grid, env.incs, env.R)
         self.grid = env.grid
@@ -583,6 +586,50 @@ def p_row_at_window_edge(i):
             if any(t < mn for t in ts) and any(t == mn for t in ts):
                 return True
     return False
+
+
+def inclusive_cut_model(i):
+    """bug model of the recorded C07 defect: the time-window deque when expiring rows are cut with the
+    inclusive `.loc[:newest-T+1ns]`.  Returns the row positions the implementation still holds after
+    the failing step, or 'raises' if the deque runs empty (IndexError)."""
+    T = pd.Timedelta(i.spec.win[1]).value
+    dq = []
+    for j in range(i.step + 1):
+        lo, hi = i.bounds[j]
+        if hi > lo:
+            dq.append(list(range(lo, hi)))
+        if not dq:
+            continue
+        mx = max(i.times[p] for b in dq for p in b)
+        mn = mx - T + 1
+        while True:
+            if not dq:
+                return "raises"
+            if min(i.times[p] for p in dq[0]) >= mn:
+                break
+            cut = [p for p in dq[0] if i.times[p] <= mn]
+            dq[0] = dq[0][len(cut):]
+            if not dq[0]:
+                dq.pop(0)
+    return [p for b in dq for p in b]
+
+
+def p_explained_by_inclusive_cut(i):
+    """the observation is exactly what the inclusive-cut model predicts (and the input has a row at the
+    window edge next to an expiring row in one batch)"""
+    w = i.spec.win
+    if not w or w[0] != "t" or i.times is None or not p_row_at_window_edge(i):
+        return False
+    model = inclusive_cut_model(i)
+    if i.clause == "exception":
+        return model == "raises" and i.fail.observed.get("raised") == "IndexError"
+    if model == "raises" or i.fail.got is None:
+        return False
+    try:
+        want_model = i.spec.oracle(i.env.full.iloc[model])
+        return diff(i.fail.got, want_model, zero_ok=i.spec.zero_ok) is None
+    except Exception:
+        return False
 
 
 def p_key_vanishes(i):
@@ -845,7 +892,7 @@ def _run_pipeline(spec, env, split, first, state, fresh):
     from streamz import Stream
     from streamz.dataframe import DataFrame
     s = Stream()
-    sdf = DataFrame(s, example=env.example)
+    sdf = DataFrame(s, example=env.example if fresh else env.example_last)
     get = spec.make(sdf, state, fresh)
     lo = sum(split[:first])
     out = []
